@@ -47,11 +47,13 @@ MCRoleOf == [f \in MCFiles |->
 
 Names == {"n", "w", "x"}
 
+\* impconf / starconf: the level-1 conftest imports the name from ANOTHER conftest.py, the one of the sibling directory
+\* (`from ..s.conftest import n` / `import *`): the providing module is itself a conftest, outside the using file's chain
 AllConfKinds == {"absent", "irrelevant", "def", "def2", "override", "star", "imp", "imp_nonfix",
-                 "plugins", "star2", "imp2", "autodef"}
-MCLevelsFull == [l \in 0..2 |-> CASE l = 0 -> AllConfKinds \ {"star2", "imp2", "autodef"}
+                 "plugins", "star2", "imp2", "autodef", "impconf", "starconf"}
+MCLevelsFull == [l \in 0..2 |-> CASE l = 0 -> AllConfKinds \ {"star2", "imp2", "autodef", "impconf", "starconf"}
                                   [] l = 1 -> AllConfKinds \ {"plugins", "autodef"}
-                                  [] l = 2 -> AllConfKinds \ {"plugins", "star2", "imp2", "autodef"}]
+                                  [] l = 2 -> AllConfKinds \ {"plugins", "star2", "imp2", "autodef", "impconf", "starconf"}]
 MCLevelsCli == [l \in 0..2 |-> CASE l = 0 -> {"absent", "def", "autodef", "star", "imp_nonfix"}
                                  [] l = 1 -> {"absent", "def", "autodef", "override", "imp"}
                                  [] l = 2 -> {"absent", "irrelevant", "def", "def2", "override"}]
@@ -68,7 +70,7 @@ MCSameChain == {"none", "def", "override", "defover"}
 \* {"cs"}: a conftest in a SIBLING directory (its name a string prefix of the chain directory's) defines the name too
 MCExtraChain == {{}, {"pl"}, {"tp"}, {"pl", "tp"}, {"plo"}, {"plo", "tp"}, {"cs"}, {"cs", "tp"}}
 MCLevelsSmall == [l \in 0..2 |-> CASE l = 0 -> {"absent", "def", "star"}
-                                   [] l = 1 -> {"absent", "def", "override", "imp"}
+                                   [] l = 1 -> {"absent", "def", "override", "imp", "impconf", "starconf"}
                                    \* star / imp at the innermost level: with the conftest itself as the using file the
                                    \* requested name reaches it only through ITS OWN import
                                    [] l = 2 -> {"absent", "irrelevant", "def", "override", "star", "imp"}]
@@ -105,6 +107,8 @@ ConfItems(k, l) ==
       [] k = "plugins"    -> <<Plugins(HelpFile(l))>>
       [] k = "star2"      -> <<Star(HelpFile(l))>>
       [] k = "imp2"       -> <<Imp(HelpFile(l), "n")>>
+      [] k = "impconf"    -> <<Spelled(Imp("cs", "n"), 2)>>
+      [] k = "starconf"   -> <<Spelled(Star("cs"), 2)>>
       [] OTHER -> <<>>
 HelpItems(k) ==
     CASE k \in {"star", "imp", "plugins"} -> <<DefN>>
@@ -173,6 +177,7 @@ ShapeSet(ck, sks, exs, uks, ufs) ==
         /\ (c.rev => (c.sk # "none" \/ c.uf # "u"))
         /\ (c.uf # "u" => c.sk = "none")
         /\ (c.uf = "c2" => c.ck[3] # "absent")
+        /\ (c.ck[2] \in {"impconf", "starconf"} => "cs" \in c.ex)
         /\ Cardinality(Definers(WsOf(c))) <= MaxDefiners }
 
 \* A: the full layout product under the plain test-parameter usage
